@@ -317,15 +317,6 @@ def implPayloads (impl : String) : Option (List (List UInt8) × String) :=
   | ["built", hs, v] => some (unhexList hs, (v.drop 2).toString)
   | _ => none
 
-/-- the first datagram that is larger than the frame budget of its packet: datagram `i` is held
-    against `budgets[min i last]` (a flight longer than the budget list repeats the last entry, as
-    planFor repeats the last InitialPackets entry); a budget ≤ 0 means "not known" -/
-def firstOversize (ps : List (List UInt8)) (budgets : List Int) : Option (Nat × Nat × Int) :=
-  (List.range ps.length).findSome? fun i =>
-    match budgets[min i (budgets.length - 1)]? with
-    | some b => if b > 0 && ((ps.getD i []).length : Int) > b then some (i, (ps.getD i []).length, b) else none
-    | none => none
-
 def judgeFlight (name : String) (src : List UInt8) (inRange : Bool) (impl : String) (budgets : List Int := []) :
     List Fail := Id.run do
   let mut fails : List Fail := []
